@@ -67,12 +67,10 @@ def _seq(it, v):
         return c.e, c.elem
     if isinstance(c, ListCell):
         from .symex import elem_expr
-        if not c.items:
-            return z3.Empty(M.SeqString), 'bytes'
-        kind = 'bytes' if c.items[0].b else 'str'
-        return z3.Concat(*[z3.Unit(elem_expr(kind, x)) for x in c.items]) \
-            if len(c.items) > 1 else z3.Unit(elem_expr(kind, c.items[0])), \
-            kind
+        from . import lists
+        kind = 'bytes' if (not c.items or c.items[0].b) else 'str'
+        return lists.l_from_items(
+            it.ctx, M.SeqString, [elem_expr(kind, x) for x in c.items]), kind
     raise Unsupported('expected list')
 
 
